@@ -548,7 +548,9 @@ def main():
             big = max([1.0] + [abs(x) for o in m if not isinstance(o, str) for it in o for x in it[2]
                                if x == x and abs(x) != float("inf")])
             tol = tol * big
+        dsl.PURE_REL = bool(c.get("pure_rel"))
         d = dsl.first_difference(r, m, tol, c.get("adjudicate"), c.get("lenient"))
+        dsl.PURE_REL = False
         if r == ["timeout"] or r == ["crash"]:
             failures.append({"case": i, "confirmed": True,
                              "reason": ("corgi did not finish this program within the time limit of its chunk "
